@@ -48,7 +48,26 @@ Definition rne_div (a b : Z) : Z :=
 
 Inductive f64res := Bits (b : Z) | Infinite.
 
-(* nearest binary64 of m * 10^e for m > 0, as the bit pattern without sign *)
+(* nearest binary floating-point number (precision p bits, largest exponent emax) of the positive
+   rational num/den, as the bit pattern without sign: binary64 is p = 53, emax = 1023;
+   binary32 is p = 24, emax = 127 *)
+Definition round_rat (p emax : Z) (num den : Z) : f64res :=
+  let bl := Z.log2 num - Z.log2 den in
+  (* value in [2^E, 2^(E+1)) *)
+  let ge := if 0 <=? bl then (den * 2 ^ bl <=? num) else (den <=? num * 2 ^ (- bl)) in
+  let E := if ge then bl else bl - 1 in
+  let emin := 1 - emax in
+  if E <? emin then
+    (* subnormal: unit 2^(emin - (p-1)) *)
+    Bits (rne_div (num * 2 ^ (p - 1 - emin)) den)
+  else
+    let s := E - (p - 1) in
+    let q := if 0 <=? s then rne_div num (den * 2 ^ s) else rne_div (num * 2 ^ (- s)) den in
+    let '(E', q') := if q =? 2 ^ p then (E + 1, 2 ^ (p - 1)) else (E, q) in
+    if emax <? E' then Infinite
+    else Bits ((E' + emax) * 2 ^ (p - 1) + (q' - 2 ^ (p - 1))).
+
+(* nearest binary64 of m * 10^e for m > 0 *)
 Definition round_pos (m e : Z) : f64res :=
   let nd := ndigits m in
   if 400 <? e + nd then Infinite
@@ -56,18 +75,7 @@ Definition round_pos (m e : Z) : f64res :=
   else
     let num := if 0 <=? e then m * 10 ^ e else m in
     let den := if 0 <=? e then 1 else 10 ^ (- e) in
-    let bl := Z.log2 num - Z.log2 den in
-    (* value in [2^E, 2^(E+1)) *)
-    let ge := if 0 <=? bl then (den * 2 ^ bl <=? num) else (den <=? num * 2 ^ (- bl)) in
-    let E := if ge then bl else bl - 1 in
-    if E <? -1022 then
-      Bits (rne_div (num * 2 ^ 1074) den)
-    else
-      let s := E - 52 in
-      let q := if 0 <=? s then rne_div num (den * 2 ^ s) else rne_div (num * 2 ^ (- s)) den in
-      let '(E', q') := if q =? 2 ^ 53 then (E + 1, 2 ^ 52) else (E, q) in
-      if 1023 <? E' then Infinite
-      else Bits ((E' + 1023) * 2 ^ 52 + (q' - 2 ^ 52)).
+    round_rat 53 1023 num den.
 
 Definition round_f64 (d : decimal) : f64res :=
   let sign := if neg d then 2 ^ 63 else 0 in
@@ -76,6 +84,24 @@ Definition round_f64 (d : decimal) : f64res :=
        | Bits b => Bits (sign + b)
        | Infinite => Infinite
        end.
+
+(* binary64 bit pattern -> binary32 bit pattern, rounded once (as `x as f32`); None for NaN *)
+Definition narrow_f32 (bits : Z) : option Z :=
+  let sign := bits / 2 ^ 63 in
+  let e := (bits / 2 ^ 52) mod 2 ^ 11 in
+  let m := bits mod 2 ^ 52 in
+  let s32 := sign * 2 ^ 31 in
+  if e =? 2047 then (if m =? 0 then Some (s32 + 255 * 2 ^ 23) else None)
+  else if (e =? 0) && (m =? 0) then Some s32
+  else
+    let '(num, den) :=
+      if e =? 0 then (m, 2 ^ 1074)
+      else if 1075 <=? e then ((2 ^ 52 + m) * 2 ^ (e - 1075), 1)
+      else (2 ^ 52 + m, 2 ^ (1075 - e)) in
+    match round_rat 24 127 num den with
+    | Bits b => Some (s32 + b)
+    | Infinite => Some (s32 + 255 * 2 ^ 23)
+    end.
 
 (* C07 classification of a literal *)
 Inductive numclass := CU64 (v : Z) | CI64 (v : Z) | CF64 (bits : Z) | CInf.
